@@ -87,6 +87,7 @@ def run(ctx):
     _mem2reg(ctx)
     _fresh_insertions(ctx)
     _typed_replacements(ctx)
+    _fold_defined(ctx)
     # R5
     opt = ctx.fn("ppci/api.py", "optimize")
     cfg = CFG(opt)
@@ -480,3 +481,64 @@ def _typed_replacements(ctx):
     calls = [n for n in ast.walk(rs) if isinstance(n, ast.Call) and norm(n.func) == "self.find_store_backwards"]
     ok = len(calls) == 1 and len(calls[0].args) >= 2 and norm(calls[0].args[1]) == norm(calls[0].args[0]) + ".value.ty"
     ctx.ob("C03.R9", "ppci/opt/load_after_store.py:LoadAfterStorePass.remove_redundant_stores", "an earlier store is only removed when the later store to the same address writes a value of the same type (a narrower store does not overwrite a wider one)", ok, construct="redundant-store-type")
+
+
+CF = "ppci/opt/constantfolding.py"
+# IR operations that have no value for some operand (the Python operator the folder uses raises there, or would build a number of unbounded size)
+# (a shift by the width or more is not demanded to stay unfolded: Python gives it a value, only astronomically large left shifts cannot be computed)
+UNDEFINED_AT = {"%": lambda b, w: b == 0, "/": lambda b, w: b == 0, "<<": lambda b, w: b < 0 or b >= 2 ** 40, ">>": lambda b, w: b < 0}
+
+
+def _fold_defined(ctx):
+    """C03.R10.  ConstantFolder.eval_const applies a Python operator to the two constant operands.  is_const is the only
+    gate in front of it, so is_const has to answer False for a remainder by zero, a negative shift count and a huge left shift: such an IR module is well formed (C `5 % z` with z == 0 reaches it after mem2reg) and the pass would die
+    with ZeroDivisionError / ValueError, or build a number of a billion bits.  The Binop branch of is_const is evaluated by
+    sa/minieval for every folded operation, every width and right operands -3..70, with the operand constants bound
+    symbolically."""
+    from .. import minieval
+    ctx.rule("C03.R10", "constant folding never evaluates an operation that has no value: is_const answers False for a remainder (division) by zero and for a shift by a negative count or a left shift by an astronomically large one (evaluated over every folded operation, widths 8..64, right operands -3..70, 2**40, 2**62)", floor=8)
+    cls = ctx.cls(CF, "ConstantFolder")
+    ini = ctx.fn(CF, "ConstantFolder.__init__")
+    ops = [n for n in ast.walk(ini) if isinstance(n, ast.Assign) and norm(n.targets[0]) == "self.ops" and isinstance(n.value, ast.Dict)]
+    ctx.need(len(ops) == 1, "ConstantFolder.ops table not found")
+    keys = [k.value for k in ops[0].value.keys if isinstance(k, ast.Constant)]
+    ic = ctx.fn(CF, "ConstantFolder.is_const")
+    par = [a.arg for a in ic.args.args if a.arg != "self"][0]
+    br = [n for n in ast.walk(ic) if isinstance(n, ast.If) and norm(n.test) == "isinstance(%s, ir.Binop)" % par]
+    ctx.need(len(br) == 1, "is_const: the ir.Binop branch was not found")
+    body = ast.FunctionDef(name="binop_branch", args=ic.args, body=br[0].body, decorator_list=[], lineno=br[0].lineno, col_offset=0)
+    methods = {f.name: f for f in cls.body if isinstance(f, ast.FunctionDef) and f.name not in ("is_const", "eval_const", "on_block", "__init__")}
+    site = CF + ":ConstantFolder.is_const"
+    # users of eval_const other than through is_const
+    ob = ctx.fn(CF, "ConstantFolder.on_block")
+    for c in [n for n in ast.walk(ob) if isinstance(n, ast.Call) and norm(n.func) == "self.eval_const"]:
+        arg = norm(c.args[0])
+        g = [t for t in _guards(c, ob)]
+        ctx.ob("C03.R10", CF + ":ConstantFolder.on_block", "eval_const(%s) is only reached after is_const(%s)" % (arg, arg), "self.is_const(%s)" % arg in g, construct="gated:" + arg, node=c)
+    for op in keys:
+        und = UNDEFINED_AT.get(op)
+        for w in (8, 16, 32, 64):
+            bad = []
+            n_und = 0
+            for b in list(range(-3, 71)) + [2 ** 40, 2 ** 62]:
+                paths = {"value.operation": op, "value.ty.bits": w, "value.ty.is_integer": True, "value.ty.signed": True, "self.ops": dict.fromkeys(keys, 1),
+                         "self.is_const(value.a)": True, "self.is_const(value.b)": True, "self.eval_const(value.b).value": b, "self.eval_const(value.a).value": 5,
+                         "value.b.value": b, "value.a.value": 5}
+                glob = {"self": minieval.Sym("self")}
+                env = {"__paths__": paths, "__methods__": methods, "__globals__": glob, "self": glob["self"]}
+                try:
+                    got = bool(minieval.call(body, [minieval.Sym("value")], env))
+                except minieval.Undecidable as e:
+                    ctx.undecided("C03.R10", site, "is_const on `%s` (bits %d, right operand %d): %s" % (op, w, b, e))
+                    bad = None
+                    break
+                if und is not None and und(b, w):
+                    n_und += 1
+                    if got:
+                        bad.append(b)
+            if bad is None:
+                break
+            if und is None:
+                continue
+            ctx.ob("C03.R10", site, "`a %s b` at %d bits is not folded for any b where it has no value" % (op, w), not bad, construct="undefined-not-folded:%s:%d" % (op, w), node=br[0],
+                   detail=("%d undefined right operands refused" % n_und) if not bad else "is_const answers True for b = %s" % bad[:6])
